@@ -163,6 +163,49 @@ def run(chk, tier, only_rule=None):
         chk.fail('R20.3', site, v['file'], v['l'], 'writable static `%s` (%s) is %s' % (v['n'], F.tname(v, v['t'])[:50], handed),
                  {'static': v['q'], 'function': fq}, fq or v['q'])
     chk.require(ctl_static, 'R20.3 positive control (static handed out by non-const reference) not detected')
+    # ---- R20.6: a function-local static is initialised once (thread-safe) and never written again
+    chk.rule('R20.6', 'function-local statics of the artifact files are never written after their initialisation (no assignment, ++/--, mutating '
+                      'member call, or binding to a non-const reference parameter): concurrent calls share them', floor=30)
+    WRITERS = {'assign', 'append', 'push_back', 'emplace_back', 'pop_back', 'clear', 'insert', 'erase', 'resize', 'reserve', 'swap', 'replace',
+               'emplace', 'try_emplace', 'insert_or_assign', 'operator=', 'operator+=', 'reset', 'store', 'exchange', 'fetch_add'}
+    ctl_w = False; wseen = set()
+    fn_by_id = {}
+    for fn in facts.functions: fn_by_id.setdefault(fn['id'], fn)
+    for v in sorted(facts.vars, key=lambda w: 1 if w.get('dep') else 0):      # instantiations first; a pattern only when nothing instantiates it
+        if not v.get('local') or v.get('const') or not v.get('fn'): continue
+        ctl = v['file'].startswith('drivers/control.cpp')
+        if not ctl and not in_artifact(v['file']): continue
+        f = fn_by_q.get(v['fn'])
+        if f is None or f.get('body') is None: continue
+        site = '%s %s static %s' % (v['file'], A.strip_targs(v['fn']).replace('jsoncons::', ''), v['n'])
+        if site in wseen: continue
+        wseen.add(site)
+        wr = None
+        def is_v(e):
+            s2 = A.strip(e, casts=True)
+            return s2 is not None and s2.get('k') == 'DeclRefExpr' and s2.get('id') == v['id']
+        for x in A.walk(f['body']):
+            k = x.get('k')
+            if k in ('BinaryOperator', 'CompoundAssignOperator') and x.get('op', '').endswith('=') and x.get('op') not in ('==', '!=', '<=', '>=') and is_v(x.get('lhs')): wr = (x, 'assigned')
+            elif k == 'UnaryOperator' and x.get('op') in ('++', '--') and is_v(x.get('sub')): wr = (x, 'incremented')
+            elif k == 'CXXOperatorCallExpr' and x.get('oop') in ('=', '+=', '-=', '++', '--', '<<=', '|=', '&=') and x.get('args') and is_v(x['args'][0]): wr = (x, 'assigned (operator%s)' % x['oop'])
+            elif k == 'CXXMemberCallExpr' and is_v(x.get('obj')) and not x.get('cconst') and A.callee_name(x) in WRITERS: wr = (x, 'modified by %s()' % A.callee_name(x))
+            elif k == 'CallExpr' and v.get('dep') and x.get('callee') is not None:
+                # uninstantiated pattern: member call through a dependent member expression
+                ce = A.strip(x['callee'], casts=True)
+                if ce is not None and ce.get('n') in WRITERS and is_v(ce.get('base')): wr = (x, 'modified by %s()' % ce.get('n'))
+            elif k in A.CALLS and x.get('cid') in fn_by_id:
+                cal = fn_by_id[x['cid']]
+                for p_, a in zip(cal.get('params') or [], x.get('args') or []):
+                    if is_v(a) and is_nonconst_ref_or_ptr(F.tname(cal, p_['t'])): wr = (x, 'passed as `%s` to %s' % (F.tname(cal, p_['t'])[:40], cal['n']))
+            if wr: break
+        if ctl:
+            if wr: ctl_w = True
+            continue
+        if wr is None: chk.ok('R20.6', site, None, nontrivial=len(wseen) % 10 == 0)
+        else: chk.fail('R20.6', site, f['file'], wr[0].get('l'), 'function-local static `%s` (%s) is %s in %s: every thread that calls it shares and rewrites the same object' % (
+            v['n'], F.tname(v, v['t'])[:50], wr[1], A.strip_targs(v['fn'])), {'static': v['n']}, v['fn'])
+    chk.require(ctl_w, 'R20.6 positive control (written function-local static in drivers/control.cpp) not detected')
     # ---- R20.4 deep const
     ctl_deep = False
     dseen = set()
